@@ -199,6 +199,32 @@ CHECKS = {
         "are supplied with explicit flavor attributes (None-vs-default is "
         "C01's subject) and compared with DSP0201 defaults applied",
         "DESIGN.md 4-C04", "wireeq"),
+    "C07": (
+        "TLA+ symbol-level transcription of to_wbem_uri (4 formats) and "
+        "from_wbem_uri (regexps, _kbstr_to_cimval, DSP0004 literal grammars) "
+        "with design switches, model-checked with TLC for round trip / "
+        "canonical / accepted / total; every abstract path and mutated text "
+        "is run through the real printer and parsers and judged by TLC",
+        "TLC checks on the transcription, for every path of a structured "
+        "universe (all header shapes incl. IPv6+port hosts and multi-level "
+        "namespaces, every string over a 13-class alphabet up to length 2/3, "
+        "all typed key values at the intN bounds and real classes, 2-3 keys "
+        "in all case variants, references to depth 3) x 4 formats, that "
+        "parse(print(p)) equals p up to exactly the three documented losses, "
+        "that case/order variants have the identical canonical URI, that "
+        "every printed URI is accepted, and that both parsers are total on "
+        "every single-symbol mutation; 8 wrong design variants (5 = the "
+        "pinned tree) must fail. Each path (with random case, key order and "
+        "numeric width) x format and ~10^4-10^5 mutated / raw texts run on "
+        "the real to_wbem_uri/str()/get_cimobject_header and from_wbem_uri; "
+        "TLC judges every observed vector and measures drift of the real "
+        "text and parser outcome from the transcription.",
+        "small-scope symbol alphabet (ASCII letters, one datetime literal, "
+        "decimal literals; '+', hex/octal/binary literals and non-ASCII "
+        "names only via seeded raw text for totality); instance paths "
+        "without keys excluded; NaN by class; == demanded only when no "
+        "documented loss applies",
+        "DESIGN.md 4-C07", "wbemuri"),
     "C10": (
         "TLA+ reference keyed map with set-valued status codes (RepoCore); "
         "code-shaped validation-order + dict/heap machine refinement in TLC; "
